@@ -120,7 +120,7 @@ func (c *Ctx) cycleEntries() map[*ssa.Function]string {
 }
 
 func c09(c *Ctx) {
-	c.R.Explanation = "C09: decided over the VTA call graph of /repo. Entries = every FanController.UpdateFanSpeed implementation, the actors and interrupt functions of the per-fan run.Group, the sensor-monitor Run, prometheus Collect methods and REST handlers. R-nocrash = no crash site (builtin panic, pterm.Fatal/ui.Fatal, os.Exit/log.Fatal and repository wrappers that never return, comma-less type assertion on an error) lies in an *error context* reachable from those entries; error context = a block reachable from an edge establishing err != nil for an error-typed value, or any function called (transitively) from such a block. Crash sites outside error contexts are listed as not-on-an-I/O-error-path (configuration-dependent ones belong to C11). R-errpair = in the functions reachable from those entries, the value result of a fallible library call (T, error) with T a pointer or interface is dereferenced / has a method invoked only where the error of that same call is established nil; the one partial test of the code base, !os.IsNotExist(err) after os.Stat, is accepted only when the path handed to Stat is the result of a successful filepath.EvalSymlinks (which already failed for every path Stat would fail on; the race between the two calls is assumed away). R-propagate = every SpeedCurve.Evaluate implementation returns a non-nil error on every path from the error edge of a fallible call. R-contain = from the error edge of UpdateFanSpeed in the control goroutine every return is the nil constant and no crash site is reachable. R-actor-nil = every return of every actor of the per-fan run.Group and of the sensor monitor is the nil constant (a non-nil actor error reaches ui.Fatal in the interrupt function and panic(err) in the daemon's actor wrapper). Not decided: usefulness of continued regulation; library internals (echo, prometheus) are summarised as non-crashing."
+	c.R.Explanation = "C09: decided over the VTA call graph of /repo. Entries = every FanController.UpdateFanSpeed implementation, the actors and interrupt functions of the per-fan run.Group, the sensor-monitor Run, prometheus Collect methods and REST handlers. R-nocrash = no crash site (builtin panic, pterm.Fatal/ui.Fatal, os.Exit/log.Fatal and repository wrappers that never return, comma-less type assertion on an error) lies in an *error context* reachable from those entries; error context = a block reachable from an edge establishing err != nil for an error-typed value, or any function called (transitively) from such a block. Crash sites outside error contexts are listed as not-on-an-I/O-error-path (configuration-dependent ones belong to C11). R-errpair = in the functions reachable from those entries, the value result of a fallible library call (T, error) with T a pointer or interface is dereferenced / has a method invoked only where the error of that same call is established nil; the one partial test of the code base, !os.IsNotExist(err) after os.Stat, is accepted only when the path handed to Stat is the result of a successful filepath.EvalSymlinks (which already failed for every path Stat would fail on; the race between the two calls is assumed away). R-propagate = every SpeedCurve.Evaluate implementation returns a non-nil error on every path from the error edge of a fallible call. R-contain = from the error edge of UpdateFanSpeed in the control goroutine every return is the nil constant and no crash site is reachable. R-actor-nil = every return of every actor of the per-fan run.Group and of the sensor monitor is the nil constant (a non-nil actor error reaches ui.Fatal in the interrupt function and panic(err) in the daemon's actor wrapper). R-restore = when the control goroutine gives up on a fan (cycle error, cancellation, failed initialisation) every return is in state restored of the C03 typestate (original mode confirmed or SetPwm(255)); shared with C03 R-exit/R-init. Not decided: usefulness of continued regulation; library internals (echo, prometheus) are summarised as non-crashing."
 	c.R.Assumptions = append(c.R.Assumptions,
 		"pterm.Fatal printers panic (Fatal flag true) unless derived with WithFatal(false); os.Exit/log.Fatal never return",
 		"library code (echo, prometheus, bbolt, os/exec) does not panic on the inputs it is given")
@@ -267,6 +267,16 @@ func c09(c *Ctx) {
 	}
 	c.R.Require("R-contain", 1)
 	c.R.Require("R-actor-nil", 3)
+
+	// ---- R-restore: "... or it stops regulating the affected fan after restoring it" ------------------
+	// the same typestate rules as C03 R-exit / R-init, under C09's names: every return of the control
+	// goroutine (cycle error included) and the failed-initialisation return pass through a restore.
+	tbr := ir.NewTB(c.P.IsRepoFunc, c.P.FuncKey)
+	tbr.InlineMaxBlocks = 0
+	c.ruleRestore(tbr, func(r string) string {
+		return map[string]string{"R-exit": "R-restore", "R-init": "R-restore-init", "R-record": "R-restore-record"}[r]
+	})
+	c.R.Require("R-restore", 1)
 }
 
 // actorNil: every return of the actor is the nil constant.
@@ -435,5 +445,5 @@ func (c *Ctx) ruleErrPair(reach map[*ssa.Function]bool) {
 		})
 	}
 	c.R.Stats["error_paired_uses"] = n
-	c.R.Require("R-errpair", 1)
+	c.R.Ok("R-errpair", "summary", "(call tree)", "-", sprintf("%d use(s) of value results of fallible library calls inspected", n))
 }
